@@ -157,3 +157,40 @@ Proof.
   destruct (cut_straight_subtrees argsort n D D nc th sort false labels None eq_refl Hv Ha Hcut) as (ids & P1 & P2).
   exists e', labels, ids. split; [exact F|]. split; [exact HL|]. split; [exact P1 | exact P2].
 Qed.
+
+(** cut_straight with return_dendrogram = True on a dendrogram that needs no reordering (heights already sorted, so that
+    [cut_input D true = Ok D]): labels and the reduced dendrogram of the model. *)
+Theorem src_cut_straight_end_to_end_ret argsort n D nc th sort ret (e0 : env) :
+  valid n D = true -> argsort_ok argsort -> cut_input D ret = Ok D ->
+  e0 "dendrogram" = Some (embD D) -> e0 "n" = Some (vnat n) ->
+  e0 "n_clusters" = Some (embON nc) -> e0 "threshold" = Some (embOQ th) -> e0 "sort_clusters" = Some (VBool sort) ->
+  (forall st, straight_core_model D nc th = Ok st -> e0 "oracle:np.argsort" = Some (oracle_answer argsort st)) ->
+  match cut_straight argsort D nc th sort ret with
+  | Ok (labels, od) =>
+      exists e', exec (src_cut_straight_all ret) e0 = POk e' /\ e' "labels" = Some (VList (map vnat labels)) /\
+                 match od with
+                 | Some Dnew => ret = true /\ e' "dendrogram_new" = Some (VList (map embNewRow Dnew))
+                 | None => ret = false
+                 end
+  | Err er => exec (src_cut_straight_all ret) e0 = PErr (conv er)
+  end.
+Proof.
+  intros Hv Ha Hci Hd Hn Hnc Hth Hs Ho.
+  destruct (valid_rows n D Hv) as [Hlen _].
+  unfold cut_straight, straight_state, straight_state_with, src_cut_straight_all. rewrite Hci.
+  rewrite <- Hlen in Hn.
+  pose proof (src_cut_straight_core_is_model D nc th e0 Hd Hn Hnc Hth) as L.
+  unfold straight_core_model in L, Ho.
+  destruct (cut_height D nc th) as [cut|er] eqn:Ec.
+  - destruct (replay (straight_guard cut) (S (Datatypes.length D)) D (init_clusters (S (Datatypes.length D)))) as [st|er] eqn:Er.
+    + destruct L as (e1 & F1 & Hc1 & Hd1). rewrite (exec_seq_ok _ _ _ _ F1).
+      assert (Hinv : cinv n D (Datatypes.length D) st).
+      { rewrite Hlen in Er.
+        apply (replay_cinv (straight_guard cut) n D (valid_ids_lt n D Hv) D [] (init_clusters n) st eq_refl (cinv_init n D)).
+        simpl. rewrite Nat.add_0_r. exact Er. }
+      apply (labels_part_after argsort n D st sort ret e1 Hlen Ha (cinv_nodes_lt _ _ _ _ Hinv) Hd1 Hc1).
+      * rewrite (exec_frame _ _ _ F1) by (vm_compute; intuition discriminate). exact Hs.
+      * rewrite (exec_frame _ _ _ F1) by (vm_compute; intuition discriminate). exact (Ho st eq_refl).
+    + rewrite (exec_seq_err _ _ _ _ L). reflexivity.
+  - rewrite (exec_seq_err _ _ _ _ L). reflexivity.
+Qed.
